@@ -29,9 +29,12 @@ type Obligation struct {
 	TimeS   float64
 	Model   string
 	SMTSize int
+	Reveal  []string // labels of opaque assumptions this obligation may use (clause tag use:<label>)
 }
 
 type Ctx struct {
+	opaque    map[int]string // assertion index -> label: assumed clause tagged opaque:<label>, visible only to obligations tagged use:<label>
+	curOpaque string
 	P        *Program
 	decls    []string
 	declared map[string]bool
@@ -128,6 +131,12 @@ func (c *Ctx) assert(t string) {
 	if t == "true" {
 		return
 	}
+	if c.curOpaque != "" {
+		if c.opaque == nil {
+			c.opaque = map[int]string{}
+		}
+		c.opaque[len(c.asserts)] = c.curOpaque
+	}
 	c.asserts = append(c.asserts, t)
 }
 
@@ -156,6 +165,18 @@ var sweepKinds = map[string]bool{"nil": true, "index": true, "slice": true, "div
 
 func (c *Ctx) oblige(kind string, tags []string, guard, goal, where, detail string) {
 	goal = c.simplify(goal)
+	var reveal []string
+	if len(tags) > 0 {
+		var kept []string
+		for _, t := range tags {
+			if strings.HasPrefix(t, "use:") {
+				reveal = append(reveal, strings.TrimPrefix(t, "use:"))
+			} else {
+				kept = append(kept, t)
+			}
+		}
+		tags = kept
+	}
 	if sweepKinds[kind] && c.sweepFilter != nil && len(tags) > 0 {
 		var kept []string
 		for _, t := range tags {
@@ -178,7 +199,7 @@ func (c *Ctx) oblige(kind string, tags []string, guard, goal, where, detail stri
 		}
 		c.ordinals[key]++
 		o := &Obligation{Name: fmt.Sprintf("%s@%d", key, c.ordinals[key]), Func: c.curFunc, Kind: kind, Tags: tags,
-			Pos: len(c.asserts), Guard: guard, Goal: goal, Where: where, Detail: detail}
+			Pos: len(c.asserts), Guard: guard, Goal: goal, Where: where, Detail: detail, Reveal: reveal}
 		if sk, ok := c.skForm[goal]; ok {
 			o.Goal = c.simplify(sk)
 		}
